@@ -67,7 +67,7 @@ SITUATIONS = [
 BLOCK = 4
 
 
-async def _situation(loop, sit, backend, k, repeat_name=None):
+async def _situation(loop, sit, backend, k, repeat_name=None, pipelined=False):
     name, prep, cmd, shape, needs_data = sit
     spy = spyio.Spy()
     wd = W.World(loop, S.USERS_ANON, backend=backend, spy=spy, server_kwargs={"block_size": BLOCK})
@@ -93,12 +93,27 @@ async def _situation(loop, sit, backend, k, repeat_name=None):
         data_t = a.data[1].transport if a.data else None
         verb = cmd.split(" ")[0]
         empty = name == "stor-empty"
-        codes, crashed, out, listing = await W.run_line(wd, a, cmd.encode(), b"" if empty else PAYLOAD)
+        pipelined_codes = None
+        if pipelined:
+            # the faulting command and the next command arrive in ONE segment (no waiting for the reply)
+            m0 = len(a.replies)
+            a.send_raw(cmd.encode() + b"\r\nPWD\r\n")
+            await loop.settle()
+            waited = 0.0
+            while waited < 4.0 and len([c for c, _ in a.replies[m0:] if not c.startswith("1")]) < 2 and not a.eof:
+                await asyncio.sleep(0.25)
+                waited += 0.25
+                await loop.settle()
+            pipelined_codes = [int(c) for c, _ in a.replies[m0:]]
+            codes, crashed, out, listing = pipelined_codes[:1], False, b"", None
+        else:
+            codes, crashed, out, listing = await W.run_line(wd, a, cmd.encode(), b"" if empty else PAYLOAD)
         if 150 in codes and not any(c >= 200 for c in codes):
             # the peer is still waiting for the completion reply: give it (virtual) time
             await asyncio.sleep(3)
             await loop.settle()
         res["codes"] = codes
+        res["pipelined_codes"] = pipelined_codes
         res["calls"] = [nm for kk, nm, _ in spy.log if kk >= n0]
         res["crashed"] = crashed
         res["data_closed"] = None
@@ -130,9 +145,10 @@ async def _situation(loop, sit, backend, k, repeat_name=None):
 
 
 def _job(args):
-    idx, backend, k, rep = args
+    idx, backend, k, rep = args[:4]
+    pipelined = len(args) > 4 and args[4]
     try:
-        return simnet.run(_situation, SITUATIONS[idx], backend, k, rep)
+        return simnet.run(_situation, SITUATIONS[idx], backend, k, rep, pipelined)
     except BaseException as e:  # noqa
         return "HARNESS-ERROR %s: %s" % (type(e).__name__, e)
 
@@ -186,6 +202,9 @@ def _run(ctx, compare=True):
                 jobs.append((i, be, k, None))
             for kind in sorted(set(r["calls"])):
                 jobs.append((i, be, None, kind))
+            if not SITUATIONS[i][4]:
+                for k in range(len(r["calls"])):
+                    jobs.append((i, be, k, None, True))
         outs = pool.map(_job, jobs, chunksize=4)
     lines, expect = [], []
     # 1. fault-free call sequences vs the model's programs
@@ -199,7 +218,9 @@ def _run(ctx, compare=True):
         if be == "memory" or True:
             lines.append("fault calls %s %s" % (verb, shape_tok(sit[3], r["calls"], verb)))
             expect.append(("calls", sit[0], be, None, ",".join(r["calls"])))
-    for (i, be, k, rep), r in zip(jobs, outs):
+    for job, r in zip(jobs, outs):
+        i, be, k, rep = job[:4]
+        pipelined = len(job) > 4 and job[4]
         sit = SITUATIONS[i]
         res.cases += 1
         res.count("backend=" + be)
@@ -210,6 +231,16 @@ def _run(ctx, compare=True):
         res.count("fault_in=" + call)
         if k is None or k > 0:
             res.distinct.add((sit[0], be, k, rep))
+        if pipelined:
+            res.count("pipelined")
+            pc = r.get("pipelined_codes") or []
+            if pc != [451, 257] or r["follow_pwd"] != [257]:
+                res.oracle_failures.append({
+                    "input": {"situation": sit[0], "command": sit[2], "preparation": sit[1], "backend": be, "fault_at_call": k, "all_calls_of_kind_fail": None, "pipelined_with": "PWD"},
+                    "what": "%r (backend call %d failing) and PWD sent in one segment were answered %r, then PWD -> %r (want 451, 257 and a live session)" % (sit[2], k, pc, r["follow_pwd"]),
+                    "signature": "C13:pipelined-command-lost:%s" % sit[2].split(" ")[0].lower(),
+                })
+            continue
         f = oracle(sit, be, k, rep, r)
         if f:
             res.oracle_failures.append(f)
@@ -250,7 +281,7 @@ def search(ctx, prior):
 def _one(inp):
     names = [s[0] for s in SITUATIONS]
     i = names.index(inp["situation"])
-    r = _job((i, inp["backend"], inp.get("fault_at_call"), inp.get("all_calls_of_kind_fail")))
+    r = _job((i, inp["backend"], inp.get("fault_at_call"), inp.get("all_calls_of_kind_fail"), bool(inp.get("pipelined_with"))))
     return SITUATIONS[i], r
 
 
